@@ -23,8 +23,11 @@ struct capsule { template <class F> capsule(void* p, F f) { /* keep alive: leak 
 template <class T> struct dtype_name;
 #define DT(T, N) template <> struct dtype_name<T> { static const char* get() { return N; } };
 DT(uint8_t,"u1") DT(uint16_t,"u2") DT(uint32_t,"u4") DT(uint64_t,"u8") DT(int8_t,"i1") DT(int16_t,"i2") DT(int32_t,"i4") DT(int64_t,"i8") DT(float,"f4") DT(double,"f8") DT(bool,"b1")
-template <class T> struct array_t : object {
+// flags as in pybind11 (py::array::c_style etc.); the stand-in holds contiguous data only, so every flag combination behaves alike
+struct array { enum { c_style = 1, f_style = 2, forcecast = 16 }; };
+template <class T, int Flags = array::forcecast> struct array_t : object {
   array_t() {}
+  template <int G> array_t(const array_t<T, G>& o) : object(o), own(o.own), n_(o.n_) {}   // pybind11: converting constructor from object
   array_t(size_t n, const T* data) { set(n, data); }
   array_t(size_t n, const T* data, capsule) { set(n, data); }
   void set(size_t n, const T* data) { arr_impl a; a.dtype = dtype_name<T>::get(); a.itemsize = sizeof(T); a.n = n;
